@@ -37,6 +37,7 @@ from slimta.policy.headers import AddDateHeader
 from vp.core import B
 
 ASSUMPTIONS = [
+    'concurrent messages: the model lets every message perform the events of its own sequential run under an arbitrary schedule (per-call state of enqueue/_run_policies is local; the store hands out fresh ids); the concurrent stream checks exactly this on the real code, per client',
     'no SmtpValidators/WsgiValidators class is installed (a handle_queued validator may rewrite the reply arbitrarily)',
     'storage ids are fresh (Queue.enqueue spawns an attempt only for ids not in active_ids)',
     'a slow write is a write that blocks on an event and then completes; a write that never completes never produces an answer (C14 is about time limits)',
@@ -772,6 +773,393 @@ def run_proxy_stream(ctx):
     return len(shapes)
 
 
+# ---------------------------------------------------------------- concurrent stream
+# Several clients (different senders/recipients) deliver at the same time through real
+# edges into ONE real Queue whose policy chain contains a policy that yields inside
+# apply().  The harness decides the interleaving: which client sends its message next and
+# which blocked policy / storage write is released next.
+from slimta.queue.dict import DictStorage
+from slimta.policy import QueuePolicy
+from slimta.policy.headers import AddMessageIdHeader
+
+
+def c_sender(c):
+    return 'client%d@senders.example' % c
+
+
+def c_rcpts(c):
+    return ['c%da@dom%da.example' % (c, c), 'c%db@dom%db.example' % (c, c)]
+
+
+def c_msg(c):
+    return ('From: %s\r\nSubject: c02 client %d\r\n\r\nbody of client %d\r\n' % (c_sender(c), c, c)).encode()
+
+
+def owner_of(envelope):
+    m = re.match(r'client(\d+)@senders\.example$', envelope.sender or '')
+    return int(m.group(1)) if m else 99
+
+
+class World(object):
+    def __init__(self):
+        self.log = []            # (client, event)
+        self.activity = 0
+        self.gates = []          # blocked gates, in the order they were reached
+        self.seen = {}
+
+    def act(self):
+        self.activity += 1
+
+    def block(self, kind, envelope):
+        base = (kind, owner_of(envelope), '|'.join(envelope.recipients))
+        n = self.seen.get(base, 0)
+        self.seen[base] = n + 1
+        gate = dict(label=('G',) + base + (n,), ev=Event())
+        self.gates.append(gate)
+        self.act()
+        gate['ev'].wait()
+        self.act()
+
+    def release(self, label):
+        for g in self.gates:
+            if g['label'] == label:
+                self.gates.remove(g)
+                g['ev'].set()
+                self.act()
+                return True
+        return False
+
+    def settle(self):
+        idle, last = 0, self.activity
+        for _ in range(50000):
+            gevent.sleep(0)
+            if self.activity == last:
+                idle += 1
+                if idle >= 8:
+                    return
+            else:
+                idle, last = 0, self.activity
+        raise HarnessError('concurrent run does not settle')
+
+
+class YieldPolicy(QueuePolicy):
+    """a policy that has to wait for something (a scan, a lookup): it lets other
+    greenlets run inside apply() - once (gevent.sleep(0)) or until the harness releases it"""
+
+    def __init__(self, world, mode):
+        self.world = world
+        self.mode = mode
+
+    def apply(self, envelope):
+        self.world.log.append((owner_of(envelope), (1,)))
+        self.world.act()
+        if self.mode == 'sleep':
+            gevent.sleep(0)
+            self.world.act()
+        else:
+            self.world.block('Y', envelope)
+
+
+class TracedDictStorage(DictStorage):
+    """the real DictStorage; write() is logged and, if `gated`, blocks until released"""
+
+    def __init__(self, world, gated):
+        super(TracedDictStorage, self).__init__()
+        self.world = world
+        self.gated = gated
+        self.nwrites = {}
+
+    def write(self, envelope, timestamp):
+        o = owner_of(envelope)
+        k = self.nwrites.get(o, 0)
+        self.nwrites[o] = k + 1
+        self.world.log.append((o, (0, k)))
+        self.world.act()
+        if self.gated:
+            self.world.log.append((o, (1,)))
+            self.world.block('W', envelope)
+        id = super(TracedDictStorage, self).write(envelope, timestamp)
+        self.world.log.append((o, (2, k)))
+        self.world.act()
+        return id
+
+    def snapshot(self):
+        return sorted((e.sender, e.headers['Subject'], tuple(e.recipients)) for e in self.env_db.values())
+
+
+CHAINS = [   # (chain, yields before the writes per message, envelopes per message)
+    (('Y',), 1, 1), (('Y', 'D'), 1, 1), (('D', 'Y', 'M'), 1, 1), (('D', 'Y'), 1, 1),
+    (('S', 'Y'), 2, 2), (('DS', 'Y'), 2, 2), (('S', 'Y', 'D'), 2, 2),
+    (('Y', 'S'), 1, 2), (('Y', 'DS'), 1, 2), (('D', 'Y', 'S'), 1, 2), (('Y', 'D', 'S'), 1, 2),
+]
+
+
+def build_chain(queue, world, chain, ymode):
+    for p in chain:
+        queue.add_policy({'Y': lambda: YieldPolicy(world, ymode), 'D': AddDateHeader,
+                          'M': lambda: AddMessageIdHeader('edge.test'), 'S': RecipientSplit,
+                          'DS': RecipientDomainSplit}[p]())
+
+
+class Client(object):
+    def __init__(self, world, idx, edge_kind, queue, store):
+        self.world = world
+        self.idx = idx
+        self.edge_kind = edge_kind
+        self.queue = queue
+        self.store = store
+        self.rcpts = c_rcpts(idx)
+        self.answer = None
+        self.at_reply = None
+        self.fed = False
+        self.g = None
+
+    def _answered(self, value):
+        if self.answer is None:
+            self.answer = value
+            self.at_reply = self.store.snapshot()
+            self.world.log.append((self.idx, (8, value) if self.edge_kind == 'smtp' else (9, value)))
+        self.world.act()
+
+    def prepare(self):
+        if self.edge_kind != 'smtp':
+            return
+        self.body_sent = False
+
+        def on_send(data):
+            self.world.act()
+            if self.body_sent:
+                m = REPLY_LINE.search(data)
+                if m:
+                    self._answered(m.group(1).decode())
+
+        self.sock = sock = DuplexSock(on_send)
+        edge = SmtpEdge(None, self.queue, hostname='edge.test')
+        self.g = g = gevent.spawn(edge.handle, sock, ('192.0.2.%d' % (10 + self.idx), 4242))
+
+        def nreplies():
+            return len(REPLY_LINE.findall(sock.sent))
+
+        settle(lambda: nreplies() >= 1 or g.dead, 'banner')
+        n = 1
+        for cmd in [b'EHLO client%d.test\r\n' % self.idx, b'MAIL FROM:<%s>\r\n' % c_sender(self.idx).encode()] + \
+                [b'RCPT TO:<%s>\r\n' % r.encode() for r in self.rcpts] + [b'DATA\r\n']:
+            n += 1
+            sock.feed(cmd)
+            settle(lambda: nreplies() >= n or g.dead, 'no reply to %r' % cmd)
+        if REPLY_LINE.findall(sock.sent)[-1] != b'354':
+            raise HarnessError('DATA not accepted: %r' % sock.sent)
+
+    def feed(self):
+        self.fed = True
+        self.world.act()
+        if self.edge_kind == 'smtp':
+            self.body_sent = True
+            self.sock.feed(c_msg(self.idx) + b'.\r\n')
+            return
+
+        def b64(s):
+            return base64.b64encode(s.encode()).decode()
+
+        msg = c_msg(self.idx)
+        environ = {
+            'REQUEST_METHOD': 'POST', 'PATH_INFO': '/', 'CONTENT_TYPE': 'message/rfc822',
+            'CONTENT_LENGTH': str(len(msg)), 'wsgi.input': io.BytesIO(msg), 'wsgi.url_scheme': 'http',
+            'REMOTE_ADDR': '192.0.2.%d' % (10 + self.idx), 'HTTP_X_EHLO': 'client%d.test' % self.idx,
+            'HTTP_X_ENVELOPE_SENDER': b64(c_sender(self.idx)),
+            'HTTP_X_ENVELOPE_RECIPIENT': ', '.join(b64(r) for r in self.rcpts),
+        }
+        edge = WsgiEdge(self.queue, hostname='edge.test')
+        self.g = gevent.spawn(edge, environ, lambda status, headers: self._answered(int(status[:3])))
+
+    def finish(self):
+        if self.edge_kind == 'smtp' and self.g is not None and not self.g.dead:
+            self.sock.feed(b'QUIT\r\n')
+            settle(lambda: self.g.dead or self.sock.waiting, 'quit')
+            if not self.g.dead:
+                self.sock.feed(b'')
+        if self.g is not None:
+            self.g.join(timeout=1)
+
+
+def run_concurrent(cfg, schedule=None, rng=None, max_steps=200):
+    """cfg = dict(edges, chain, ymode, storage).  With `schedule`: perform exactly these
+    actions (then finish in creation order); with `rng`: choose every next action at random.
+    Returns dict(schedule, log, clients)."""
+    world = World()
+    store = TracedDictStorage(world, cfg['storage'] == 'gated')
+    queue = Queue(store, None)
+    build_chain(queue, world, tuple(cfg['chain']), cfg['ymode'])
+    clients = [Client(world, i, ek, queue, store) for i, ek in enumerate(cfg['edges'])]
+    for c in clients:
+        c.prepare()
+    done_sched = []
+
+    def options():
+        return [('F', c.idx) for c in clients if not c.fed] + [g['label'] for g in world.gates]
+
+    def perform(act):
+        act = tuple(act)
+        if act[0] == 'F*':
+            for i in act[1]:
+                clients[i].feed()
+        elif act[0] == 'F':
+            if clients[act[1]].fed:
+                return False
+            clients[act[1]].feed()
+        elif not world.release(act):
+            return False
+        done_sched.append(act)
+        world.settle()
+        return True
+
+    pending = list(schedule or [])
+    for _ in range(max_steps):
+        opts = options()
+        if pending:
+            act = pending.pop(0)
+            perform(act)
+            continue
+        if not opts:
+            break
+        perform(rng.choice(opts) if rng is not None else opts[0])
+    else:
+        raise HarnessError('concurrent run did not finish')
+    for c in clients:
+        c.finish()
+    return dict(schedule=[list(a) for a in done_sched], log=list(world.log), clients=clients,
+                final=store.snapshot())
+
+
+def judge_concurrent(ctx, case, out):
+    for c in out['clients']:
+        ccase = dict(case, client=c.idx, schedule=out['schedule'])
+        if c.answer is None:
+            fail(ctx, 'c02:no-answer-concurrent', ccase, 'client %d never got an answer' % c.idx)
+            continue
+        k = cls(c.answer)
+        if k == 2:
+            own = [r for (snd, subj, rc) in c.at_reply if snd == c_sender(c.idx) and subj == 'c02 client %d' % c.idx
+                   for r in rc]
+            missing = [r for r in c.rcpts if r not in own]
+            if missing:
+                fail(ctx, 'c02:2xx-but-own-recipients-not-stored-concurrent', ccase,
+                     'client %d (%s) read %r while storage held %r: its recipients %r are not stored' % (
+                         c.idx, c.edge_kind, c.answer, c.at_reply, missing))
+        elif k not in (4, 5):
+            fail(ctx, 'c02:answer-class', ccase, 'answer %r' % (c.answer,))
+    for snd, subj, rc in out['final']:
+        m = re.match(r'client(\d+)@', snd or '')
+        o = int(m.group(1)) if m else None
+        if o is None or subj != 'c02 client %d' % o or any(r not in c_rcpts(o) for r in rc):
+            fail(ctx, 'c02:stored-envelope-mixes-clients', dict(case, schedule=out['schedule']),
+                 'stored envelope sender=%r subject=%r recipients=%r' % (snd, subj, rc))
+
+
+def concurrent_configs(ctx):
+    """(cfg, mode) with mode = 'all' (every interleaving) or a number of random schedules"""
+    cfgs = []
+    two = [('smtp', 'smtp'), ('wsgi', 'wsgi'), ('smtp', 'wsgi')]
+    three = [('smtp', 'smtp', 'smtp'), ('wsgi', 'smtp', 'wsgi')]
+    for chain, py, nenv in CHAINS:
+        for edges in two:
+            cfgs.append((dict(edges=edges, chain=chain, ymode='gate', storage='dict'), 'all'))
+            cfgs.append((dict(edges=edges, chain=chain, ymode='gate', storage='gated'), 12 if ctx.quick else 120))
+            cfgs.append((dict(edges=edges, chain=chain, ymode='sleep', storage='dict'), 'all'))
+            cfgs.append((dict(edges=edges, chain=chain, ymode='sleep', storage='gated'), 6 if ctx.quick else 60))
+        for edges in three:
+            short = chain in (('Y',), ('S', 'Y'), ('Y', 'S'), ('D', 'Y', 'M'))
+            if ctx.quick and not short:
+                continue
+            cfgs.append((dict(edges=edges, chain=chain, ymode='gate', storage='dict'),
+                         ('all' if py == 1 and not ctx.quick else (20 if ctx.quick else 150))))
+            cfgs.append((dict(edges=edges, chain=chain, ymode='sleep', storage='dict'), 'all'))
+            cfgs.append((dict(edges=edges, chain=chain, ymode='gate', storage='gated'), 8 if ctx.quick else 80))
+    return cfgs
+
+
+def expected_msgs(cfg):
+    chain = tuple(cfg['chain'])
+    py, nenv = [(p, n) for ch, p, n in CHAINS if ch == chain][0]
+    d = 1 if cfg['storage'] == 'gated' else 0
+    return [[0 if ek == 'smtp' else 1, py, [[0, d, [0]]] * nenv] for ek in cfg['edges']]
+
+
+def all_schedules(cfg):
+    """every interleaving of the harness actions, by depth-first re-execution"""
+    n = len(cfg['edges'])
+    if cfg['ymode'] == 'sleep':
+        # the policy yields on its own: what matters is who is fed while the others are inside apply()
+        starts = [[('F*', order)] for order in itertools.permutations(range(n))] + [[]]
+    else:
+        starts = [[]]
+    outs = []
+    for start in starts:
+        stack = [list(start)]
+        while stack:
+            path = stack.pop()
+            probe = run_concurrent_probe(cfg, path)
+            if probe['options']:
+                for o in reversed(probe['options']):
+                    stack.append(path + [o])
+            else:
+                outs.append(probe['out'])
+    return outs
+
+
+def run_concurrent_probe(cfg, path):
+    """runs exactly `path`; returns the actions possible afterwards, or the finished run"""
+    world_opts = {}
+
+    # run_concurrent with a schedule finishes the run in creation order after the schedule; to
+    # learn the options after `path` we run it with a chooser that records them first
+    class Chooser(object):
+        def choice(self, opts):
+            if 'options' not in world_opts:
+                world_opts['options'] = list(opts)
+            return opts[0]
+
+    out = run_concurrent(cfg, schedule=path, rng=Chooser())
+    return dict(options=world_opts.get('options', []), out=out if 'options' not in world_opts else None)
+
+
+def run_concurrent_stream(ctx):
+    runs = []
+    nall = 0
+    for cfg, mode in concurrent_configs(ctx):
+        if mode == 'all':
+            outs = all_schedules(cfg)
+            nall += 1
+        else:
+            outs = [run_concurrent(cfg, rng=ctx.rng) for _ in range(mode)]
+        for out in outs:
+            runs.append((cfg, out))
+    # the model: one interleaved run of the per-message models, scheduled as observed
+    inputs = [[0, expected_msgs(cfg), [o for o, e in out['log']]] for cfg, out in runs]
+    mouts = ctx.model.batch('c02_sched', inputs)
+    for (cfg, out), mo in zip(runs, mouts):
+        case = dict(stream='concurrent', edges=list(cfg['edges']), chain=list(cfg['chain']), ymode=cfg['ymode'],
+                    storage=cfg['storage'])
+        ctx.evaluated(('conc', tuple(cfg['edges']), tuple(cfg['chain']), cfg['ymode'], cfg['storage'],
+                       repr(out['schedule'])), nontrivial=True)
+        ctx.count('concurrent:clients%d' % len(cfg['edges']))
+        ctx.count('concurrent:%s:%s' % (cfg['ymode'], cfg['storage']))
+        overlapped = any(out['log'][i][0] != out['log'][i + 1][0] for i in range(len(out['log']) - 1)
+                         if out['log'][i + 1][1][0] not in (8, 9))
+        ctx.count('concurrent:interleaved' if overlapped else 'concurrent:sequential')
+        judge_concurrent(ctx, case, out)
+        model_log = [(e[0], canon_trace([e[1]])[0]) for e in mo]
+        if model_log != out['log']:
+            # say which client's events are not its own sequential run
+            bad = [c.idx for c in out['clients']
+                   if [e for o, e in out['log'] if o == c.idx] != [e for o, e in model_log if o == c.idx]]
+            ctx.mismatch('concurrent-per-client', dict(case, schedule=out['schedule'], clients_off=bad), out['log'], model_log)
+        ctx.sample(dict(case=dict(case, schedule=out['schedule']), log=out['log'],
+                        answers=[c.answer for c in out['clients']]), cap=8)
+    return len(runs), nall
+
+
+
 # ---------------------------------------------------------------- entry points
 class quiet(object):
     """no network (PTR lookups stubbed), no log noise, no tracebacks of the
@@ -804,6 +1192,7 @@ def run(ctx):
         nq = run_queue_stream(ctx)
         nr = run_results_stream(ctx)
         np_ = run_proxy_stream(ctx)
+        nc, nall = run_concurrent_stream(ctx)
     ctx.extra['rule'] = (
         'queue stream: every list of 1-4 storage-write behaviours over {id, QueueError, QueueError+550 reply, other exception} '
         'with no or exactly one slow write at every position, every list of 1-%d behaviours over 8 kinds (attached replies 450/550/250/354/no code) '
@@ -811,10 +1200,15 @@ def run(ctx):
         'each through the SMTP edge (real Server, command by command on an in-memory socket) and the WSGI edge; '
         'results stream: every result list of length 0-%d over 10 result kinds on both edges (%d lists) + _build_http_response on codes 100-599; '
         'proxy stream: ProxyQueue x %d relay result shapes (whole, mapping/sequence over {None, Reply, PermanentRelayError, TransientRelayError, other} for 1-3 recipients, raised errors) '
-        'x both edges x fast/slow relay. Compared with the model: event trace (write start/tick/done/fail, answer), answer code, attempts spawned, storage contents at the instant of the answer, '
+        'x both edges x fast/slow relay; '
+        'concurrent stream: 2 and 3 clients (different senders/recipients; SMTP sessions, WSGI calls and mixed) in flight on ONE real Queue '
+        '(real DictStorage, plain or with gated writes) with 11 policy chains containing a policy that yields inside apply() (gevent.sleep(0) or a gate; first/middle/last position; '
+        'with/without RecipientSplit/RecipientDomainSplit before/after it): %d runs, every interleaving of sends and gate releases for %d configurations, seeded random interleavings for the rest; '
+        'oracle per client at the instant it reads 2xx: every one of ITS recipients is stored in an envelope of ITS message; the global event log must be the model\'s interleaving (c02_sched) '
+        'of the per-message runs, i.e. each client\'s events are exactly its own sequential model run. Compared with the model: event trace (write start/tick/done/fail, answer), answer code, attempts spawned, storage contents at the instant of the answer, '
         'and the trace at every blocked instant against the model run in which that write hangs. '
         'non-trivial = more than one envelope, a failing or slow write, any proxy case, result lists of length != 1'
-        % (2 if ctx.quick else 3, nq, 3 if ctx.quick else 4, nr, np_))
+        % (2 if ctx.quick else 3, nq, 3 if ctx.quick else 4, nr, np_, nc, nall))
     ctx.extra.pop('_c02_fail', None)
     ctx.extra['exhaustive'] = True
     ctx.extra['exhaustive_bound'] = (
@@ -846,6 +1240,18 @@ def replay(ctx, case):
             if ctx.model:
                 m = ctx.model.call('c02_results', [enc_result(k) for k in c['results']])
                 print('model (fixed code):', (B(m[0]).decode(), m[1]))
+        elif c.get('stream') == 'concurrent':
+            cfg = dict(edges=c['edges'], chain=c['chain'], ymode=c['ymode'], storage=c['storage'])
+            out = run_concurrent(cfg, schedule=c.get('schedule', []))
+            print('schedule performed:', out['schedule'])
+            print('global log (client, event):', out['log'])
+            for cl in out['clients']:
+                print('client %d (%s) recipients %r: answer=%r storage at that instant=%r' % (
+                    cl.idx, cl.edge_kind, cl.rcpts, cl.answer, cl.at_reply))
+            print('storage at the end:', out['final'])
+            if ctx.model:
+                mo = ctx.model.call('c02_sched', [0, expected_msgs(cfg), [o for o, e in out['log']]])
+                print('model (per-message runs interleaved as observed):', [(e[0], canon_trace([e[1]])[0]) for e in mo])
         elif c.get('stream') == 'proxy':
             shape = (c['shape'][0],) + ((tuple(c['shape'][1]),) if len(c['shape']) > 1 else ())
             nrcpt = len(shape[1]) if len(shape) > 1 else 2
